@@ -232,6 +232,14 @@ def volumes(name, n):
         v = np.zeros(n)
         v[-1] = 1.0
         return v
+    if name == "sparse":
+        # every third grain (1, 4, 7, ...) has exactly zero volume: vanished grains that FOLLOW
+        # grains of positive volume (seed C03h: loop-carried state inherited by skipped grains)
+        if n == 1:
+            return np.ones(1)
+        v = np.arange(1.0, n + 1.0)
+        v[1::3] = 0.0
+        return v / v.sum()
     if name == "onehot_i64":
         # one grain holds the whole volume, typed with integer literals (an int64 ndarray)
         v = np.zeros(n, dtype=np.int64)
